@@ -877,6 +877,13 @@ func runC04(a vh.Args, o *vh.Oracle, r *vh.Result) error {
 		if err := readJSON(a.Replay, &c); err != nil {
 			return err
 		}
+		if c.Kind == "retry" {
+			var rc c04Retry
+			if err := readJSON(a.Replay, &rc); err != nil {
+				return err
+			}
+			return c04RunRetry(a, r, &rc)
+		}
 		if c.Kind == "fault" {
 			var f c04Fault
 			if err := readJSON(a.Replay, &f); err != nil {
@@ -982,6 +989,9 @@ func runC04(a vh.Args, o *vh.Oracle, r *vh.Result) error {
 		return err
 	}
 	if err := c04Faults(a, o, r, rng); err != nil {
+		return err
+	}
+	if err := c04Retries(a, r, rng); err != nil {
 		return err
 	}
 	return c04CLI(a, o, r, rng)
